@@ -63,9 +63,10 @@ theorem parseAttribute_attrL (pos : Nat) (p l v sp : StrSpan) (w e1 e2 : Str) (b
     (h : qnameOK p.text l.text = true) (hw : isWs w = true) (hne : w ≠ [])
     (h1 : isWs e1 = true) (h2 : isWs e2 = true)
     (hv : v.text.all (fun c => isXmlChar c && c != quoteChar b && c != '<') = true) :
-    ∃ t' pos', parseAttribute ⟨pos, w ++ (tokQName p.text l.text ++
-        (e1 ++ '=' :: (e2 ++ quoteChar b :: (v.text ++ quoteChar b :: r))))⟩ = some (t', ⟨pos', r⟩) ∧
-      t'.erase = (Token.attribute p l v sp).erase := by
+    ∃ p' l' v' sp' pos', parseAttribute ⟨pos, w ++ (tokQName p.text l.text ++
+        (e1 ++ '=' :: (e2 ++ quoteChar b :: (v.text ++ quoteChar b :: r))))⟩ =
+          some (.attribute p' l' v' sp', ⟨pos', r⟩) ∧
+      (Token.attribute p' l' v' sp').erase = (Token.attribute p l v sp).erase := by
   obtain ⟨qc, qs, hq, hqc⟩ := tokQName_head h
   have hrest : Stops isXmlSpace (tokQName p.text l.text ++
       (e1 ++ '=' :: (e2 ++ quoteChar b :: (v.text ++ quoteChar b :: r)))) := by
@@ -91,27 +92,25 @@ theorem parseAttribute_attrL (pos : Nat) (p l v sp : StrSpan) (w e1 e2 : Str) (b
   simp only [parseAttribute, hsp, es, hc1, hc2, Bool.false_eq_true, if_false, Bool.not_true,
     Option.bind_eq_bind, consumeQName_app _ h heq, Option.bind_some, consumeEq_ws _ h1 h2 hs3,
     consumeQuote_q, e5, consumeByte_self]
-  refine ⟨_, _, rfl, ?_⟩
+  refine ⟨_, _, _, _, _, rfl, ?_⟩
   simp only [Token.erase, (placeQName_erase _ p l).1, (placeQName_erase _ p l).2]
   rw [sliceBack_eq v.text rfl]
   rfl
 
 /-- `>` after any white space. -/
-theorem parseAttribute_openL (pos : Nat) (sp : StrSpan) (w r : Str) (hw : isWs w = true) :
-    ∃ t' pos', parseAttribute ⟨pos, w ++ '>' :: r⟩ = some (t', ⟨pos', r⟩) ∧
-      t'.erase = (Token.elementEnd .open sp).erase := by
+theorem parseAttribute_openL (pos : Nat) (w r : Str) (hw : isWs w = true) :
+    ∃ sp' pos', parseAttribute ⟨pos, w ++ '>' :: r⟩ = some (.elementEnd .open sp', ⟨pos', r⟩) := by
   have hsp : Stops isXmlSpace ('>' :: r) := Stops.cons r (by decide)
   simp only [parseAttribute, skipSpaces_ws _ hw hsp, curr?_cons, adv_one]
-  exact ⟨_, _, rfl, rfl⟩
+  exact ⟨_, _, rfl⟩
 
 /-- `/>` after any white space. -/
-theorem parseAttribute_emptyL (pos : Nat) (sp : StrSpan) (w r : Str) (hw : isWs w = true) :
-    ∃ t' pos', parseAttribute ⟨pos, w ++ '/' :: '>' :: r⟩ = some (t', ⟨pos', r⟩) ∧
-      t'.erase = (Token.elementEnd .empty sp).erase := by
+theorem parseAttribute_emptyL (pos : Nat) (w r : Str) (hw : isWs w = true) :
+    ∃ sp' pos', parseAttribute ⟨pos, w ++ '/' :: '>' :: r⟩ = some (.elementEnd .empty sp', ⟨pos', r⟩) := by
   have hsp : Stops isXmlSpace ('/' :: '>' :: r) := Stops.cons _ (by decide)
   simp only [parseAttribute, skipSpaces_ws _ hw hsp, curr?_cons, adv_one, consumeByte_self,
     Option.bind_eq_bind, Option.bind_some, beq_self_eq_true, if_true]
-  exact ⟨_, _, rfl, rfl⟩
+  exact ⟨_, _, rfl⟩
 
 /-! ### End tags -/
 
